@@ -6,7 +6,6 @@ wt=/tmp/ts-$$
 git -C /repo worktree add -q --detach $wt HEAD || exit 2
 (cd $wt && (git apply "$p" 2>/dev/null || git apply -3 "$p")) || { echo "PATCH DOES NOT APPLY"; git -C /repo worktree remove --force $wt; exit 3; }
 for id in "$@"; do
-  (cd /verif && TXDBUS_REPO=$wt ./check $id 2>&1 | grep -E "VIOLATION|^OK|KNOWN|MACHINERY|^  " | head -4)
-  (cd /verif && git checkout -q evidence/$id.json 2>/dev/null)
+  (cd /verif && TXDBUS_REPO=$wt TXV_EVIDENCE_DIR=$wt/.ev TXV_REPLAY_DIR=$wt/.rp ./check $id 2>&1 | grep -E "VIOLATION|^OK|KNOWN|MACHINERY|^  " | head -4)
 done
 git -C /repo worktree remove --force $wt
